@@ -79,6 +79,17 @@ pub enum Kind {
     Bool(bool),
 }
 
+/// How the installation is requested.
+#[derive(Clone, Copy, Debug, PartialEq, Eq)]
+pub enum Via {
+    /// the crate-internal dispatch (`WhenCalled`), which every public flavour funnels into
+    Internal,
+    /// public API, type-checked: `when_called(FuncPtr).will_execute_raw(FuncPtr)` / `.will_return_boolean(v)`
+    ApiChecked,
+    /// public API, unchecked flavours
+    ApiUnchecked,
+}
+
 #[derive(Clone, Debug)]
 pub struct X64Case {
     /// entry address of the synthetic target
@@ -88,6 +99,7 @@ pub struct X64Case {
     /// entry address of the fake
     pub fake: u64,
     pub kind: Kind,
+    pub via: Via,
 }
 
 #[derive(Default, Clone, Debug)]
@@ -159,10 +171,36 @@ pub fn run_x64(pages: &mut Pages, c: &X64Case, far_base: u64) -> Outcome {
     let pre = unsafe { arena::read(lo, (c.a - lo) as usize + 32.min((tpage + 0x2000 - c.a) as usize)) };
     let image = |lo: u64, len: usize| unsafe { arena::read(lo, len) };
     // 4. the real installer
+    // the public flavours keep their guards inside an `InjectorPP`; it plays the guard's role here
+    enum Held {
+        Guard(vaccess::Guard),
+        Injector(vcore::interface::injector::InjectorPP),
+    }
     let r = catch_unwind(AssertUnwindSafe(|| unsafe {
-        match c.kind {
-            Kind::Exec => vaccess::replace(Backend::Amd64, c.a as usize, c.fake as usize),
-            Kind::Bool(v) => vaccess::replace_bool(Backend::Amd64, c.a as usize, v),
+        use vcore::interface::injector::{FuncPtr, InjectorPP};
+        match (c.via, c.kind) {
+            (Via::Internal, Kind::Exec) => Held::Guard(vaccess::replace(Backend::Amd64, c.a as usize, c.fake as usize)),
+            (Via::Internal, Kind::Bool(v)) => Held::Guard(vaccess::replace_bool(Backend::Amd64, c.a as usize, v)),
+            (Via::ApiChecked, Kind::Exec) => {
+                let mut i = InjectorPP::new();
+                i.when_called(FuncPtr::new(c.a as *const (), "fn() -> u32")).will_execute_raw(FuncPtr::new(c.fake as *const (), "fn() -> u32"));
+                Held::Injector(i)
+            }
+            (Via::ApiChecked, Kind::Bool(v)) => {
+                let mut i = InjectorPP::new();
+                i.when_called(FuncPtr::new(c.a as *const (), "fn() -> bool")).will_return_boolean(v);
+                Held::Injector(i)
+            }
+            (Via::ApiUnchecked, Kind::Exec) => {
+                let mut i = InjectorPP::new();
+                i.when_called_unchecked(FuncPtr::new(c.a as *const (), "")).will_execute_raw_unchecked(FuncPtr::new(c.fake as *const (), ""));
+                Held::Injector(i)
+            }
+            (Via::ApiUnchecked, Kind::Bool(v)) => {
+                let mut i = InjectorPP::new();
+                i.when_called_unchecked(FuncPtr::new(c.a as *const (), "fn() -> bool")).will_return_boolean(v);
+                Held::Injector(i)
+            }
         }
     }));
     let owned: Vec<(u64, u64)> = venv::with(|e| e.owned.iter().filter(|(_, (_, b))| *b).map(|(a, (l, _))| (*a, *l)).collect());
@@ -263,6 +301,16 @@ pub fn run_x64(pages: &mut Pages, c: &X64Case, far_base: u64) -> Outcome {
                 };
                 if got != want {
                     o.viols.push(Viol { prop: if matches!(c.kind, Kind::Exec) { "C01" } else { "C10" }, key: "x86_64:real-call-wrong-value".into(), what: format!("calling the patched function returned {got:#x}, expected {want:#x}") });
+                }
+                // "from any call site or thread": through a function pointer held elsewhere and from
+                // a second OS thread (a sample of the placements: a thread costs more than the rest)
+                if (c.a >> 4 ^ c.fake >> 3) % 8 == 0 {
+                    let fp: extern "C" fn() -> u32 = unsafe { std::mem::transmute(c.a as usize) };
+                    let fp = std::hint::black_box(fp);
+                    let got2 = std::thread::spawn(move || fp()).join().unwrap_or(0xDEAD_DEAD);
+                    if got2 != want {
+                        o.viols.push(Viol { prop: if matches!(c.kind, Kind::Exec) { "C01" } else { "C10" }, key: "x86_64:real-call-wrong-value-second-thread".into(), what: format!("calling the patched function from a second thread returned {got2:#x}, expected {want:#x}") });
+                    }
                 }
             }
             drop(guard);
